@@ -31,11 +31,17 @@ def main():
     ran = []
     rc_changed, out_changed = sh("/venv/bin/python %s" % os.path.basename(demo), wt)
     ran.append({"cmd": "demo on changed tree", "exit": rc_changed, "tail": out_changed[-400:]})
-    sh("git stash", wt)
+    # not `git stash`: the stash is shared by all worktrees of one repository, so parallel confirmations would swap changes
+    import tempfile
+    pf = tempfile.NamedTemporaryFile("w", suffix=".diff", delete=False)
+    pf.write(diff)
+    pf.close()
+    sh("git apply -R %s" % pf.name, wt)
     try:
         rc_orig, out_orig = sh("/venv/bin/python %s" % os.path.basename(demo), wt)
     finally:
-        sh("git stash pop", wt)
+        sh("git apply %s" % pf.name, wt)
+        os.unlink(pf.name)
     ran.append({"cmd": "demo on original tree", "exit": rc_orig, "tail": out_orig[-400:]})
     rc_base, out_base = sh("python3 %s %s" % (os.path.join(os.path.dirname(os.path.abspath(__file__)), "baseline_check.py"), wt), wt)
     ran.append({"cmd": "baseline_check.py (repository test suite with the change)", "exit": rc_base, "tail": out_base[-300:]})
